@@ -225,15 +225,28 @@ def vertex_face_indices(vertex_count, faces, faces_sparse):
       Array padded with -1 in each row for all vertices with fewer
       face indices than the max number of face indices.
     """
+    faces = np.asanyarray(faces)
+    if len(faces) == 0:
+        # no faces: every vertex has an empty row
+        return np.zeros((vertex_count, 0), dtype=np.int64)
+
+    # a face that references the same vertex more than once
+    # is still only one face for that vertex so count each
+    # (vertex, face) incidence once
+    ordered = np.sort(faces, axis=1)
+    distinct = np.ones(ordered.shape, dtype=bool)
+    distinct[:, 1:] = ordered[:, 1:] != ordered[:, :-1]
+    incident = ordered[distinct]
+
     # Create 2D array with row for each vertex and
     # length of max number of faces for a vertex
     try:
-        counts = np.bincount(faces.flatten(), minlength=vertex_count)
+        counts = np.bincount(incident, minlength=vertex_count)
     except TypeError:
         # casting failed on 32 bit Windows
         log.warning("casting failed, falling back!")
         # fall back to np.unique (usually ~35x slower than bincount)
-        counts = np.unique(faces.flatten(), return_counts=True)[1]
+        counts = np.unique(incident, return_counts=True)[1]
     assert len(counts) == vertex_count
     assert faces.max() < vertex_count
 
@@ -260,11 +273,13 @@ def vertex_face_indices(vertex_count, faces, faces_sparse):
             + "mesh probably has degenerate faces",
             exc_info=True,
         )
-        sort = np.zeros(faces.size, dtype=np.int64)
+        sort = np.zeros(counts.sum(), dtype=np.int64)
         flat = faces.flatten()
         for v in range(vertex_count):
             # assign the data in order
-            sort[starts[v] : starts[v] + counts[v]] = (np.where(flat == v)[0] // 3)[::-1]
+            sort[starts[v] : starts[v] + counts[v]] = np.unique(
+                np.where(flat == v)[0] // 3
+            )[::-1]
         padded[padded == 0] = sort
     return padded
 
